@@ -23,8 +23,8 @@ from vf.explore import Chooser, explore
 LEVEL = "fault_enumeration"
 
 
-def mkspec(W, delete_old, delete_all):
-    return l1.Spec(B=3, workers=W, real_store=True, rich=True, alphabet="min", delete_old=delete_old,
+def mkspec(W, delete_old, delete_all, B=3):
+    return l1.Spec(B=B, workers=W, real_store=True, rich=True, alphabet="min", delete_old=delete_old,
                    extra=dict(delete_old_all=delete_all), steps=10**6)
 
 
@@ -200,8 +200,9 @@ def histories(spec, n_events, restart_before, wd):
 
 
 def _job(args):
-    W, delete_old, delete_all, n_events, restart_before, torn_set, hist_slice, per_label = args
-    spec = mkspec(W, delete_old, delete_all)
+    W, delete_old, delete_all, n_events, restart_before, torn_set, hist_slice, per_label = args[:8]
+    B = args[8] if len(args) > 8 else 3
+    spec = mkspec(W, delete_old, delete_all, B)
     wd = os.path.join(scratch.mkdtemp("c08"), "run")
     old = os.getcwd()
     viols = {}
@@ -238,7 +239,7 @@ def _job(args):
                     for clause, msg in r["violations"]:
                         sig = f"{clause}@{window(kind, rel, site)}"
                         viols.setdefault(sig, (f"{'buffered' if buffered else 'unbuffered'} writes, crash after effect #{k} {(kind, rel, site)} torn={torn}: {msg}",
-                                               dict(args=list(args[:5]), prefix=base["choices"], k=k, torn=torn, buffered=buffered)))
+                                               dict(args=list(args[:5]), B=B, prefix=base["choices"], k=k, torn=torn, buffered=buffered)))
                     # the restart had effects of its own (it repaired something): die in the middle of each
                     # (once per distinct tree the first crash left behind: the dead process has no other state)
                     tkey = (buffered, r.get("tree"))
@@ -254,7 +255,7 @@ def _job(args):
                                 sig = f"{clause}@recovery:{window(kind2, rel2, site2)}"
                                 viols.setdefault(sig, (f"{'buffered' if buffered else 'unbuffered'} writes, crash after effect #{k} {(kind, rel, site)} torn={torn}, "
                                                        f"then a second crash during the restart after its effect #{k2} {(kind2, rel2, site2)} torn={torn2}: {msg}",
-                                                       dict(args=list(args[:5]), prefix=base["choices"], k=k, torn=torn, buffered=buffered, crash2=[k2, torn2])))
+                                                       dict(args=list(args[:5]), B=B, prefix=base["choices"], k=k, torn=torn, buffered=buffered, crash2=[k2, torn2])))
     finally:
         os.chdir(old)
         l1.deactivate()
@@ -314,6 +315,9 @@ def run(ctx):
                     continue
                 for sl in range(nsl):
                     jobs.append((W, delete_old, delete_all, n_events, restart_before, torn, (sl, nsl), per_label))
+    # the smallest system (two interfaces: [0-] and [0+] only), where the deletion lag is one step
+    jobs.append((1, True, True, 3, False, torn, (0, 1), per_label, 2))
+    jobs.append((1, True, False, 4, False, torn, (0, 2 if ctx.quick else 1), per_label, 2))
     # long enough for the deletion lag to fire (one ensemble accepted repeatedly)
     jobs.append((1, True, True, 6, False, torn, (0, 9 if not ctx.quick else 30), per_label))
     if not ctx.quick:
@@ -338,6 +342,8 @@ def run(ctx):
         nh += h
         for c in classes:
             ctx.distinct(("crash-class",) + tuple(c))
+        if len(args) > 8:
+            ctx.distinct(("two-interfaces", tuple(args[:5]), k))
         for sig, (msg, rp) in viols.items():
             if sig not in seen:
                 seen.add(sig)
@@ -366,7 +372,7 @@ def replay(data):
         a, n, viols = recorded_after_restart((data["W"], data["restart_after"]))
         return [(sig, msg) for sig, (msg, _) in viols.items()]
     W, delete_old, delete_all, n_events, restart_before = data["args"]
-    spec = mkspec(W, delete_old, delete_all)
+    spec = mkspec(W, delete_old, delete_all, data.get("B", 3))
     wd = os.path.join(scratch.mkdtemp("c08r"), "run")
     old = os.getcwd()
     try:
